@@ -389,6 +389,8 @@ class Builder:
         if k == 'sub':
             sel = [self.term(t) for t in c[1]]
             body = self.cond(c[2], negated)
+            if len(c) > 3 and c[3] == 'the':
+                return the(entity(sel[0], body))            # the(...) in condition position (at most one solution by construction)
             return an(entity(sel[0], body)) if len(sel) == 1 else an(set_of(sel, body))
         raise ValueError(c)
 
